@@ -546,3 +546,67 @@ func (c *FuncCFG) TrueEdgesOfDisjunctionOf(atomOK func(ast.Expr) bool) map[edge]
 	}
 	return out
 }
+
+// succeededInLoopBefore is succeededBefore for a call made once per iteration of a
+// range loop that precedes target: (a) every path to target passes the loop, (b) an
+// iteration cannot end without making the call, (c) after the call, the iteration
+// continues (or the function proceeds) only across the nil edge of the call's error.
+func (c *FuncCFG) succeededInLoopBefore(call *ast.CallExpr, loop *ast.RangeStmt, target Point) ([]string, string) {
+	errObj := errVarOfCall(c.Fn, call)
+	if errObj == nil {
+		return []string{c.P.Position(call.Pos())}, "the call's error result is not bound to a variable"
+	}
+	nilEdges := errNilEdges(c, errObj)
+	if len(nilEdges) == 0 {
+		return []string{c.P.Position(call.Pos())}, "the call's error is never compared with nil"
+	}
+	isLoopBlock := func(pt Point, kinds ...string) bool {
+		if pt.B.Stmt != loop {
+			return false
+		}
+		for _, k := range kinds {
+			if pt.B.Kind.String() == k {
+				return true
+			}
+		}
+		return false
+	}
+	// (a) the loop head lies on every path to the target
+	var head *cfg.Block
+	var body *cfg.Block
+	for _, b := range c.G.Blocks {
+		if b.Stmt == loop && b.Kind.String() == "RangeLoop" {
+			head = b
+		}
+		if b.Stmt == loop && b.Kind.String() == "RangeBody" {
+			body = b
+		}
+	}
+	if head == nil || body == nil {
+		return nil, "loop blocks not found"
+	}
+	q := &Query{C: c, StopEdge: func(b *cfg.Block, s int) bool { return b.Succs[s] == head }}
+	vis := q.Run(c.Entry())
+	if vis[target] {
+		return q.PathTo(target), "a path reaches it without entering the loop that makes the call"
+	}
+	// (b) no iteration without the call
+	q2, vis2 := c.ReachAvoiding([]Point{{body, -1}}, nil, func(n ast.Node) bool { return contains(n, call) })
+	for pt := range vis2 {
+		if isLoopBlock(pt, "RangeLoop", "RangeDone") {
+			return q2.PathTo(pt), "an iteration can end without making the call"
+		}
+	}
+	// (c) past the call only across the nil edge
+	cp, ok := c.Locate(call)
+	if !ok {
+		return nil, "call not found in graph"
+	}
+	q3, vis3 := c.ReachAvoiding([]Point{cp}, nilEdges, nil)
+	for pt := range vis3 {
+		if isLoopBlock(pt, "RangeLoop", "RangeDone") || pt == target {
+			return q3.PathTo(pt), "execution continues past the call without its error having been tested nil"
+		}
+	}
+	return nil, ""
+}
